@@ -542,3 +542,46 @@ def make_record(fields: Sequence[str], values: Sequence[Any]) -> Any:
             raise AttributeError(name)
 
     return Record(values)
+
+
+# ----------------------------------------------------------------------------------------------------------------------
+import pathlib as _pathlib
+
+
+class APath(_pathlib.PurePosixPath, Abstract):
+    """a path as pure syntax (no file system): pathlib.Path(...) in evaluated code; resolve() / absolute() are the identity on
+    the absolute, normalised paths the rules use"""
+
+    def resolve(self, strict: bool = False) -> "APath":
+        return self
+
+    def absolute(self) -> "APath":
+        return self
+
+    def expanduser(self) -> "APath":
+        return self
+
+    def samefile(self, other: Any) -> bool:
+        return _pathlib.PurePosixPath(str(self)) == _pathlib.PurePosixPath(str(other))
+
+    def exists(self) -> bool:
+        return True  # the rules speak about paths that exist
+
+    def is_file(self) -> bool:
+        return True
+
+
+def path_hook(base_hook: Any = None) -> Any:
+    """Path(x) / pathlib.Path(x) -> APath(x)"""
+
+    def hook(e: ast.expr, f: Folder) -> Any:
+        if base_hook is not None:
+            r = base_hook(e, f)
+            if r is not NotImplemented:
+                return r
+        if isinstance(e, ast.Call) and (dotted(e.func) or "") in ("Path", "pathlib.Path", "PurePath", "pathlib.PurePath") and (dotted(e.func) or "").split(".")[0] not in f.env:
+            vals = [f.fold(a) for a in e.args]
+            return APath(*[str(v) for v in vals])
+        return NotImplemented
+
+    return hook
